@@ -246,6 +246,64 @@ fn run(op: &Value) -> Value {
             let (bl, asy) = with_n!(op["N"].as_u64().unwrap_or(99), [0, 1, 2, 3, 4, 5, 6, 8, 16]);
             json!({"blocking": show(bl), "async": show(asy)})
         }
+        "endpoint" => {
+            use conjure_http::server::{ConjureRuntime, Service};
+            use std::sync::{Arc, Mutex};
+            struct H(Arc<Mutex<Vec<String>>>);
+            impl verif_endpoints::Svc for H {
+                fn e1(&self, path_arg: i32, query_arg: String, header_arg: i32, auth_token: BearerToken) -> Result<(), conjure_error::Error> {
+                    self.0.lock().unwrap().push(format!("e1({},{:?},{},{})", path_arg, query_arg, header_arg, auth_token.as_str()));
+                    Ok(())
+                }
+                fn e2(&self, p_arg: String, opt_arg: Option<i32>, bar_arg: Option<String>, cookie_token: BearerToken) -> Result<(), conjure_error::Error> {
+                    self.0.lock().unwrap().push(format!("e2({:?},{:?},{:?},{})", p_arg, opt_arg, bar_arg, cookie_token.as_str()));
+                    Ok(())
+                }
+            }
+            let calls = Arc::new(Mutex::new(vec![]));
+            let svc = verif_endpoints::SvcEndpoints::new(H(calls.clone()));
+            let rt = Arc::new(ConjureRuntime::new());
+            let eps: Vec<Box<dyn conjure_http::server::Endpoint<std::vec::IntoIter<Result<bytes::Bytes, conjure_error::Error>>, Vec<u8>> + Sync + Send>> = Service::endpoints(&svc, &rt);
+            let want = op["endpoint"].as_str().unwrap();
+            let ep = eps.into_iter().find(|e| e.name() == want).unwrap();
+            let mut uri = String::from("/x");
+            let mut first = true;
+            for kv in op["query"].as_array().unwrap() {
+                uri.push(if first { '?' } else { '&' });
+                first = false;
+                uri.push_str(kv[0].as_str().unwrap());
+                uri.push('=');
+                uri.push_str(&String::from_utf8(hex(kv[1].as_str().unwrap())).unwrap_or_default());
+            }
+            let mut b = http::Request::builder().uri(uri.as_str());
+            for kv in op["headers"].as_array().unwrap() {
+                match http::HeaderValue::from_bytes(&hex(kv[1].as_str().unwrap())) {
+                    Ok(v) => b = b.header(kv[0].as_str().unwrap(), v),
+                    Err(_) => return json!({"error": "header value not constructible"}),
+                }
+            }
+            let mut req = match b.body(Vec::<Result<bytes::Bytes, conjure_error::Error>>::new().into_iter()) { Ok(r) => r, Err(e) => return json!({"error": format!("request not constructible: {}", e)}) };
+            let mut pp = conjure_http::PathParams::new();
+            for (k, v) in op["path"].as_object().unwrap() {
+                pp.insert(k.as_str(), String::from_utf8(hex(v.as_str().unwrap())).unwrap_or_default());
+            }
+            req.extensions_mut().insert(pp);
+            let mut ext = http::Extensions::new();
+            let r = ep.handle(req, &mut ext);
+            let safe: Vec<String> = ext.get::<conjure_http::SafeParams>().map(|s| s.iter().map(|(k, v)| format!("{}={:?}", k, v)).collect()).unwrap_or_default();
+            let ncalls = calls.lock().unwrap().len();
+            match r {
+                Ok(_) => json!({"ok": true, "handler_calls": ncalls, "calls": calls.lock().unwrap().clone(), "safe_params": safe}),
+                Err(e) => {
+                    let param = e.safe_params().iter().find(|(k, _)| *k == "param").map(|(_, v)| format!("{:?}", v));
+                    let param = param.map(|p| p.trim_start_matches("Any(String(\"").trim_end_matches("\"))").to_string());
+                    json!({"ok": false, "handler_calls": ncalls,
+                           "code": match e.kind() { conjure_error::ErrorKind::Service(s) => { let c = format!("{:?}", s.error_code()); match c.as_str() { "InvalidArgument" => "InvalidArgument".to_string(), "PermissionDenied" => "PermissionDenied".to_string(), o => o.to_string() } }, _ => "other".to_string() },
+                           "param": param, "cause_safe": e.cause_safe(), "cause": e.cause().to_string(),
+                           "error_safe_params": e.safe_params().iter().map(|(k, v)| format!("{}={:?}", k, v)).collect::<Vec<_>>(), "safe_params": safe})
+                }
+            }
+        }
         _ => json!({"error": format!("unknown op {}", name)}),
     }
 }
